@@ -5,6 +5,7 @@ import CCVerif.Lemmas.RSModelGenRen
 import CCVerif.Lemmas.RSModelGenFrag
 import CCVerif.Lemmas.RSModelGenSim
 import CCVerif.Lemmas.EvaluatorAnalysis
+import CCVerif.Lemmas.CheckerEvaluatorRen
 /-!
 # C11 — a model never shows a calculated value that is stale w.r.t. current data
 -/
@@ -404,5 +405,93 @@ example : (run (checkerA fun _ => []) (evaluatorE 10) histEval).report =
     [(1, false, some (.s [.e 5])), (2, true, some (.s [.e 5])), (3, false, none)] := by
   decide +kernel
 example : EvalLawful (checkerA fun _ => []) (evaluatorE 10) := evaluatorE_lawful [] 10
+
+end CCVerif.RSModelGen
+
+/-! # The checker model + the evaluator model WITH renaming operations, on grammar-shaped definitions
+
+`Equivariant` asks the renaming laws for every partial map and every tree, which is false for the checker
+(`equivariant_checker_counterexample`). On the CARRIER the machine really works on — every stored constituent has
+a good alias (`GoodName`) and a grammar-shaped definition (`cstShaped`: `Wf.wf .ND` + the token texts the lexer
+gives, `Lemmas/CheckerWfCarrier.lean`) — the laws are only needed for the maps that occur, and there they follow
+from the C08 equivariance of the checker:
+* `rename_id_on_carrier` — the field that was false on `Option Ast`;
+* `checker_carrier` — admissibility: the map of a `SetAliasFor(…, substitute = true)` / `SubstitueAliases` step,
+  injective on the aliases because they stay pairwise distinct, IS an admissible renaming (`NameBij.ofMap`) that
+  is good for every stored constituent;
+* `Inv.run_on` (`Lemmas/RSModelGenRenOn.lean`) — the generic machine under these carrier laws.
+What is left is ONE law of the evaluator model alone, `evaluator_rename_statement` (open): `Interpreter::Evaluate`
+gives the same value on the renamed tree against the renamed data context. -/
+namespace CCVerif.RSModelGen
+open CCVerif.SchemaGen (defShaped renameC_id_shaped checkerR CDef CInfo checkerR_lawful glob setMinus renameC mentionsOf)
+
+/-- **`Equivariant.rename_id` holds on the carrier**: `TranslateRS` with a map that does not touch the mentioned
+names leaves a grammar-shaped definition alone (on all of `Option Ast` it does not:
+`equivariant_checker_counterexample`) -/
+theorem rename_id_on_carrier (f : String → Option String) (d : CDef) (hs : defShaped d = true)
+    (h : ∀ m ∈ mentionsOf d, ren f m = m) : renameC f d = d :=
+  renameC_id_shaped f hs h
+
+/-- the tree of `equivariant_checker_counterexample` is not in the carrier -/
+example : defShaped (some (.node .ID_GLOBAL (.text "X1") 0 0 [glob "X2"])) = false := by decide +kernel
+
+/-- **C11 for the type-checker model and the evaluator model, histories WITH `SetAliasFor(…, substitute = true)`
+and `SubstitueAliases`** (part: `SetAliasFor(…, substitute = false)` excluded — `NoPlainRename`; the evaluator
+law `evaluator_rename_statement` is a hypothesis). For constant traits whose keys are not good names, every
+fuel, every admissible history (aliases stay pairwise distinct) of insertions, erasures, definition edits,
+`UpdateState`, data edits, `Calculate`, `RecalculateAll` and renamings with substitution along which every
+stored constituent is in the carrier: every term that reports a calculated value reports the value a full
+re-analysis and recalculation gives. The checker half of the equivariance is PROVED (`checker_carrier`). -/
+theorem fresh_checker_evaluator_partial2 (traits : Types.TraitEnv) (hT : TraitsApart traits) (fuel : Nat)
+    (hev : evaluator_rename_statement fuel) (ops : List (Op CDef Eval.Val))
+    (ha : AdmissibleAllFrom (checkerR fun _ => traits) (evaluatorE fuel) {} ops)
+    (hnp : ∀ op ∈ ops, NoPlainRename op)
+    (hP : ∀ k, ∀ c ∈ (run (checkerR fun _ => traits) (evaluatorE fuel) (ops.take k)).sch.store, cstShaped c) :
+    (run (checkerR fun _ => traits) (evaluatorE fuel) ops).Fresh (checkerR fun _ => traits) (evaluatorE fuel) :=
+  (Inv.run_on (checkerR_lawful _) (evaluatorE_lawfulR traits fuel) (SchemaGen.checkerEquivariance fun _ => traits)
+    (evalEquivariance_of traits fuel hev) (checker_carrier traits hT) ha hnp hP).fresh (checkerR_lawful _)
+    (evaluatorE_lawfulR traits fuel)
+
+/-- `X1` = {1,2}; `D1 := X1∪X1`, `D2 := D1\X1`, both calculated; `X1` renamed to `X2` with substitution; then
+`D1 ↦ D5`, `D2 ↦ D1` simultaneously -/
+def histEvalRen : List (Op CDef Eval.Val) :=
+  [.schema (.insert ⟨1, "X1", .base, none⟩), .setBase 1 (.s [.e 1, .e 2]),
+   .schema (.insert ⟨2, "D1", .term, some (un (glob "X1") (glob "X1"))⟩),
+   .schema (.insert ⟨3, "D2", .term, some (setMinus (glob "D1") (glob "X1"))⟩),
+   .recalculateAll, .schema (.setAlias 1 "X2" true), .schema (.substitute [("D1", "D5"), ("D2", "D1")])]
+
+/-! non-vacuity of the hypotheses on the history (the evaluator law is the open hypothesis): admissible, no plain
+rename, every stored constituent in the carrier at every step; the calculated values SURVIVE both renamings and
+agree with a full recalculation; the conclusion of the evaluator law on the renaming of this history -/
+example : AdmissibleAllFrom (checkerR fun _ => []) (evaluatorE 10) {} histEvalRen := by decide +kernel
+example : ∀ op ∈ histEvalRen, NoPlainRename op := by decide
+example : TraitsApart [] ∧ TraitsApart [("Z", Types.Traits.nominal)] := by decide +kernel
+
+theorem histEvalRen_shaped : ∀ k, ∀ c ∈ (run (checkerR fun _ => []) (evaluatorE 10) (histEvalRen.take k)).sch.store,
+    cstShaped c := by
+  intro k
+  by_cases hk : k < 8
+  · have h : ∀ k ∈ List.range 8, ∀ c ∈ (run (checkerR fun _ => []) (evaluatorE 10) (histEvalRen.take k)).sch.store,
+        cstShaped c := by decide +kernel
+    exact h k (List.mem_range.2 hk)
+  · rw [List.take_of_length_le (by simp only [histEvalRen, List.length_cons, List.length_nil]; omega)]
+    decide +kernel
+
+theorem fresh_checker_evaluator_rename_example :
+    (run (checkerR fun _ => []) (evaluatorE 10) (histEvalRen.take 5)).report =
+      [(1, false, some (.s [.e 1, .e 2])), (2, true, some (.s [.e 1, .e 2])), (3, true, some (.s []))] ∧
+    (run (checkerR fun _ => []) (evaluatorE 10) histEvalRen).report =
+      [(1, false, some (.s [.e 1, .e 2])), (2, true, some (.s [.e 1, .e 2])), (3, true, some (.s []))] ∧
+    ((run (checkerR fun _ => []) (evaluatorE 10) histEvalRen).recomputed (checkerR fun _ => [])
+      (evaluatorE 10)).report =
+      [(1, false, some (.s [.e 1, .e 2])), (2, true, some (.s [.e 1, .e 2])), (3, true, some (.s []))] ∧
+    (run (checkerR fun _ => []) (evaluatorE 10) histEvalRen).sch.store =
+      [⟨1, "X2", .base, none⟩, ⟨2, "D5", .term, some (un (glob "X2") (glob "X2"))⟩,
+       ⟨3, "D1", .term, some (setMinus (glob "D5") (glob "X2"))⟩] ∧
+    evalC 10 (fun m => if m = "X1" then some (.s [.e 1, .e 2]) else none)
+      ⟨2, "D1", .term, some (un (glob "X1") (glob "X1"))⟩ = some (.s [.e 1, .e 2]) ∧
+    evalC 10 (fun m => if m = "X2" then some (.s [.e 1, .e 2]) else none)
+      ⟨2, "D5", .term, some (un (glob "X2") (glob "X2"))⟩ = some (.s [.e 1, .e 2]) := by
+  decide +kernel
 
 end CCVerif.RSModelGen
